@@ -1,7 +1,7 @@
 (** Lemmas: the model of KeySched.v computes what Rfc7296Keys.v prescribes. *)
 From Coq Require Import List ZArith NArith Bool Lia Arith PeanoNat ZifyBool ZifyNat ZifyN.
 From VLib Require Import Bytes.
-From Keys Require Import Py Gen.CryptoTables Gen.ModpGroups Gen.ConfigSuites Gen.KeyMaterial KeySched Rfc7296Keys Rfc4868 Rfc3526.
+From Keys Require Import Py Gen.CryptoTables Gen.ModpGroups Gen.ConfigSuites Gen.KeyMaterial KeySched Rfc7296Keys Rfc4868.
 Import ListNotations.
 Open Scope Z_scope.
 
@@ -469,86 +469,4 @@ Proof.
             | exists 20, 0; split; [eexists; reflexivity|]; right; split; reflexivity
             | exists 32, 0; split; [eexists; reflexivity|]; right; split; reflexivity
             | exists 64, 0; split; [eexists; reflexivity|]; right; split; reflexivity ].
-Qed.
-
-(* ------------------------------------------------------------------------------------------- *)
-(** * Diffie-Hellman public values: fixed-width big-endian *)
-
-Lemma to_bytes_big_ok y w : 0 <= w -> 0 <= y < 256 ^ w ->
-  to_bytes_big y w = Ok (be_encode (Z.to_nat w) (Z.to_N y)).
-Proof.
-  intros Hw Hy. unfold to_bytes_big.
-  replace (0 <=? y) with true by lia. replace (0 <=? w) with true by lia.
-  replace (y <? 256 ^ w) with true by lia. reflexivity.
-Qed.
-
-Lemma from_to_bytes y w : 0 <= w -> 0 <= y < 256 ^ w ->
-  from_bytes_big (be_encode (Z.to_nat w) (Z.to_N y)) = y.
-Proof.
-  intros Hw Hy. unfold from_bytes_big. rewrite be_decode_encode; [lia|].
-  apply N2Z.inj_lt. rewrite N2Z.inj_pow, Z2N.id by lia.
-  replace (Z.of_N (N.of_nat (Z.to_nat w))) with w by lia. change (Z.of_N 256) with 256. lia.
-Qed.
-
-Lemma to_bytes_big_overflow y w : 0 <= w -> 256 ^ w <= y -> to_bytes_big y w = Raise OverflowError.
-Proof.
-  intros Hw Hy. unfold to_bytes_big. replace (y <? 256 ^ w) with false by lia.
-  rewrite !andb_false_r. reflexivity.
-Qed.
-
-Definition modp_prime (g : Z) : Z := match lookup g modp_group_dict with Some e => snd e | None => 0 end.
-
-(** width, generator and size of the primes (pure computation on the table) *)
-Lemma modp_groups_shape :
-  map fst modp_group_dict = map fst rfc3526_groups_bits /\
-  modp_generator = 2 /\
-  forall g n, In (g, n) rfc3526_groups_bits ->
-    modp_key_len_of g = Ok (n / 8) /\ 2 ^ (n - 1) <= modp_prime g < 2 ^ n /\ 256 ^ (n / 8) = 2 ^ n.
-Proof.
-  split; [reflexivity|]. split; [reflexivity|].
-  intros g n Hin. unfold rfc3526_groups_bits in Hin. cbn [In] in Hin.
-  repeat (destruct Hin as [Hin|Hin]; [injection Hin as; subst g n|]); try contradiction;
-    (split; [reflexivity|]); split; try (vm_compute; split; [discriminate|reflexivity]); vm_compute; reflexivity.
-Qed.
-
-Lemma modp_public_value g n y : In (g, n) rfc3526_groups_bits -> 0 <= y < modp_prime g ->
-  exists b, dh_public_key g y 0 = Ok b /\ length b = Z.to_nat (n / 8) /\ from_bytes_big b = y /\ wf_bytes b.
-Proof.
-  intros Hin Hy. destruct modp_groups_shape as (_ & _ & Hshape).
-  destruct (Hshape g n Hin) as (Hlen & Hp & Hpow).
-  unfold dh_public_key. unfold modp_key_len_of, dict_get in Hlen. unfold modp_prime in *.
-  destruct (lookup g modp_group_dict) as [e|]; [|discriminate]. cbn [bind] in Hlen. injection Hlen as Hlen.
-  assert (Hn : 0 <= n / 8).
-  { unfold rfc3526_groups_bits in Hin. cbn [In] in Hin.
-    repeat (destruct Hin as [Hin|Hin]; [injection Hin as; subst; vm_compute; discriminate|]). contradiction. }
-  unfold modp_public_key. rewrite Hlen. rewrite to_bytes_big_ok by lia.
-  eexists. split; [reflexivity|]. split; [apply be_encode_length|]. split; [apply from_to_bytes; lia|].
-  apply be_encode_wf.
-Qed.
-
-Lemma ec_groups_correct :
-  map (fun e => (fst e, (curve_name (snd e), (curve_key_size (snd e), ecdh_key_len (curve_key_size (snd e))))))
-      ec_groups = rfc5903_groups.
-Proof. reflexivity. Qed.
-
-Lemma ecdh_public_value g name bits w x y : In (g, (name, (bits, w))) rfc5903_groups ->
-  0 <= x < 2 ^ bits -> 0 <= y < 2 ^ bits ->
-  exists b, dh_public_key g x y = Ok b /\ length b = Z.to_nat (2 * w) /\
-            from_bytes_big (firstn (Z.to_nat w) b) = x /\ from_bytes_big (skipn (Z.to_nat w) b) = y.
-Proof.
-  intros Hin Hx Hy. unfold rfc5903_groups in Hin. cbn [In] in Hin.
-  repeat (destruct Hin as [Hin|Hin]; [injection Hin as; subst g name bits w|]); try contradiction;
-    unfold dh_public_key; cbn [lookup modp_group_dict Z.eqb Pos.eqb ec_groups dict_get bind fst snd];
-    unfold ecdh_public_key;
-    match goal with |- context [to_bytes_big x ?w] =>
-      assert (Hpow : 2 ^ _ <= 256 ^ w) by (vm_compute; discriminate);
-      rewrite (to_bytes_big_ok x w), (to_bytes_big_ok y w) by (try lia; vm_compute; discriminate);
-      cbn [bind]; eexists; split; [reflexivity|];
-      pose proof (be_encode_length (Z.to_nat w) (Z.to_N x)) as Lx;
-      pose proof (be_encode_length (Z.to_nat w) (Z.to_N y)) as Ly;
-      split; [rewrite app_length, Lx, Ly; reflexivity|];
-      split;
-      [ rewrite <- Lx at 1; rewrite firstn_app_exact; apply from_to_bytes; [vm_compute; discriminate|lia]
-      | rewrite <- Lx at 1; rewrite skipn_app_exact; apply from_to_bytes; [vm_compute; discriminate|lia] ]
-    end.
 Qed.
